@@ -18,7 +18,13 @@ def register(PROPS):
                  'day / a week / a month / a year (HOURLY;INTERVAL=25..8761, MINUTELY;INTERVAL=1441..44641, SECONDLY;INTERVAL=86401, 604801), '
                  'alone and with one BYDAY / BYMONTH / BYMONTHDAY part, over 400 steps; (mdayedge) FREQ=YEARLY and FREQ=MONTHLY with '
                  'BYMONTHDAY values at the edge of what a month has (-31, -30, -29, -28, 31, 30, 29 and mixtures, so that a negative '
-                 'day is the 1st of some months only), without BYMONTH, with BYMONTH=2 and with BYMONTH=1,3,4.',
+                 'day is the 1st of some months only), without BYMONTH, with BYMONTH=2 and with BYMONTH=1,3,4; (longlist) FREQ=YEARLY and '
+                 'FREQ=MONTHLY (without BYMONTH, with BYMONTH=2, with BYMONTH=1,3,5,7,8,10,12) with one long value list: BYDAY lists of '
+                 '11..21 distinct ordinal entries out of {1..5,-1..-5} x {MO..SU} (positive, working days only, negative, alternating '
+                 'signs, every third entry, the end of the menu; written ascending and descending), and BYMONTHDAY / BYYEARDAY / '
+                 'BYWEEKNO(+BYDAY) / BYSETPOS lists of 11..16 values (positive, negative, alternating signs; both orders); the reference '
+                 'lists hold 8 values, so the expected set is the union of the reference\'s sets for the list cut into pieces of <= 8 '
+                 'values, with COUNT / UNTIL applied to the union.',
         'note': 'Trusted: harness/ref/rfc5545.h (membership test + scan, shares no code with evrrul.c).  Only synchronised DTSTARTs (except '
                 'the unsync family, where only what follows DTSTART is judged), WKST=MO, '
                 'cases where two BYSETPOS readings differ are skipped and counted.  The rule language is infinite; the claim is the grammar.',
@@ -51,6 +57,8 @@ def register(PROPS):
               ['mode=bigstep', 'anchors=18', 'terms=full', '--case-timeout', '2'], label='bigstep'),
             D('c01_rrule', ['mode=mdayedge', 'intervals=1,2', 'anchors=8', 'terms=quick', '--case-timeout', '2'],
               ['mode=mdayedge', 'intervals=1,2,3,7', 'anchors=18', 'terms=full', '--case-timeout', '2'], label='mdayedge'),
+            D('c01_rrule', ['mode=longlist', 'intervals=1,2', 'anchors=8', 'terms=quick', '--case-timeout', '2'],
+              ['mode=longlist', 'intervals=1,2,3,7', 'anchors=18', 'terms=full', '--case-timeout', '2'], label='longlist'),
         ],
         'assumptions': ['DTSTART is a member of its own rule (RFC 3.8.5.3 leaves the other case undefined); in the unsync family a DTSTART '
                         'that is no member may or may not be delivered first, COUNT is not used there, and what follows must be the members '
